@@ -7,6 +7,7 @@ use etherparse::*;
 
 pub mod entry;
 pub mod exhaust;
+pub mod iplevel;
 pub mod whole;
 
 /// observation context for one decode of one input
@@ -120,28 +121,28 @@ pub fn nlen(e: &LenError) -> NErr {
 pub fn c_ip(e: &err::ip::HeaderError) -> NErr {
     use err::ip::HeaderError::*;
     NErr::Content(match e {
-        UnsupportedIpVersion { version_number } => format!("ip.UnsupportedIpVersion({})", version_number),
+        UnsupportedIpVersion { version_number } => format!("ip.BadVersion({})", version_number),
         Ipv4HeaderLengthSmallerThanHeader { ihl } => {
-            format!("ip.Ipv4HeaderLengthSmallerThanHeader({})", ihl)
+            format!("ip.IhlTooSmall({})", ihl)
         }
     })
 }
 pub fn c_ipv4(e: &err::ipv4::HeaderError) -> NErr {
     use err::ipv4::HeaderError::*;
     NErr::Content(match e {
-        UnexpectedVersion { version_number } => format!("ipv4.UnexpectedVersion({})", version_number),
-        HeaderLengthSmallerThanHeader { ihl } => format!("ipv4.HeaderLengthSmallerThanHeader({})", ihl),
+        UnexpectedVersion { version_number } => format!("ip.BadVersion({})", version_number),
+        HeaderLengthSmallerThanHeader { ihl } => format!("ip.IhlTooSmall({})", ihl),
     })
 }
 pub fn c_ipv6(e: &err::ipv6::HeaderError) -> NErr {
     use err::ipv6::HeaderError::*;
     NErr::Content(match e {
-        UnexpectedVersion { version_number } => format!("ipv6.UnexpectedVersion({})", version_number),
+        UnexpectedVersion { version_number } => format!("ip.BadVersion({})", version_number),
     })
 }
 pub fn c_auth_v4(e: &err::ip_auth::HeaderError) -> NErr {
     match e {
-        err::ip_auth::HeaderError::ZeroPayloadLen => NErr::Content("ipv4exts.ZeroPayloadLen".to_string()),
+        err::ip_auth::HeaderError::ZeroPayloadLen => NErr::Content("auth.ZeroPayloadLen".to_string()),
     }
 }
 pub fn c_auth_plain(e: &err::ip_auth::HeaderError) -> NErr {
@@ -153,7 +154,7 @@ pub fn c_ipv6_exts(e: &err::ipv6_exts::HeaderError) -> NErr {
     use err::ipv6_exts::HeaderError::*;
     NErr::Content(match e {
         HopByHopNotAtStart => "ipv6exts.HopByHopNotAtStart".to_string(),
-        IpAuth(err::ip_auth::HeaderError::ZeroPayloadLen) => "ipv6exts.IpAuth(ZeroPayloadLen)".to_string(),
+        IpAuth(err::ip_auth::HeaderError::ZeroPayloadLen) => "auth.ZeroPayloadLen".to_string(),
     })
 }
 pub fn c_tcp(e: &err::tcp::HeaderError) -> NErr {
